@@ -106,9 +106,27 @@ def atom_axioms(smt):
     """cheap true facts about the uninterpreted atoms that occur in a script"""
     out = []
     by = {}
+    same = {}
     for nm, n in list(smt.decl.items()):
         if n.op == 'app':
             by.setdefault(tuple(t.id for t in n.a[2:]), {})[n.a[0]] = (nm, n)
+            same.setdefault((n.a[0], n.a[1], len(n.a)), []).append((nm, n))
+    # functional consistency (Ackermann): equal arguments -> equal values, for atoms whose
+    # arguments are different terms (e.g. x/(1+x*x) built by UTPM arithmetic vs by numpy)
+    npairs = 0
+    for key, lst in same.items():
+        for i in range(len(lst)):
+            for j in range(i):
+                if npairs >= 60:
+                    break
+                (n1, a1), (n2, a2) = lst[i], lst[j]
+                conds = []
+                for s1, s2 in zip(a1.a[2:], a2.a[2:]):
+                    if s1 is not s2:
+                        conds.append(smt.boolean(S.BoolSym('==', s1, s2)))
+                if conds:
+                    out.append('(=> (and %s true) (= %s %s))' % (' '.join(conds), n1, n2))
+                    npairs += 1
     for key, d in by.items():
         if 'exp' in d:
             out.append('(> %s 0)' % d['exp'][0])
